@@ -147,6 +147,14 @@ SUITES["prims3"] = {
 SUITES["primseg"] = _seg_suite("primseg", [1, 3], "D_1x3", [1, 2], "S_12", sample={"quick": 500, "thorough": 5000})
 SUITES["primseg"]["kinds"] = [2, 3, 4, 5, 6, 9, 21]
 SUITES["primseg"]["fire_kinds"] = [21]
+# node ids start at 0 (real node id = model node id - 1): truthiness slips on node ids
+SUITES["struct3n0"] = {
+    "tla": SUITES["struct3"]["tla"],
+    "cfg": {"N": 3, "T": 3, "dims": [], "scale": [], "use_scale": True, "reg_cust": False, "per_axis_pos": False,
+            "name": "struct3n0", "node_shift": 1},
+    "kinds": [1, 2, 3, 4, 5, 6], "depth": {"quick": 3, "thorough": 6}, "maxid": 8,
+    "design_depth": {"quick": 2, "thorough": 4},
+}
 # feature switching
 SUITES["featns"] = {
     "tla": SUITES["struct3"]["tla"],
